@@ -14,7 +14,7 @@ pub struct Entry { pub file: usize, pub filter: Filter }
 pub struct Tag { pub name: String, pub from: Option<usize>, pub alias: bool, pub words: Vec<usize>, pub entries: Vec<Entry> }
 pub struct Proj { pub rule_files: Vec<Vec<(String, Vec<String>)>>, pub word_files: Vec<Vec<String>>, pub into: Vec<String>, pub tags: Vec<Tag>, pub order: Vec<usize> }
 
-const GNAMES: &[&str] = &["Lenition", "Vowel Shift", "Final Devoicing", "Glottal Deletion", "Hap(lo)logy", "Umlaut", "Cluster Simplification", "Low Vowel Reduction", "ǂ Clicks", "Nasal Assimilation"];
+const GNAMES: &[&str] = &["Lenition", "Vowel Shift", "Final Devoicing", "Glottal Deletion", "Hap(lo)logy", "Umlaut", "Cluster Simplification", "Low Vowel Reduction", "ǂ Clicks", "Nasal Assimilation", "Þ-Fronting", "Élision", "Šatem Shift", "Ōsthoff", "Åsgard Ñ"];
 const RULES: &[&str] = &["a > e", "t > d / V _ V", "s > z / _ #", "k > x", "i > e / _ n", "n > m / _ p", "e > i", "d > t / _ #", "u > o", "p > b / V _", "z > r", "o > u / _ $", "x > h", "V > [+long] / _ #", "t > s / _ i"];
 
 fn mix_case(g: &mut Gen, s: &str) -> String { match g.rng.below(3) { 0 => s.to_string(), 1 => s.to_uppercase(), _ => s.to_lowercase() } }
